@@ -32,7 +32,7 @@ for p in props:
                     "disagreement triggers a failing-input search on the real code" % (nprop, nbr)),
                 "design_ref": "DESIGN.md §4 %s" % pid,
             },
-            "level_note": s.get("level_note") or ("Partial clauses (not theorems): " + ("; ".join(s["partial_clauses"]) or "none")
+            "level_note": s.get("level_note") or ("What is NOT a theorem (decided by the correspondence run / oracle, or taken as a hypothesis), with notes on what is: " + ("; ".join(s["partial_clauses"]) or "none")
                            + ". Assumptions: " + ("; ".join(s["assumptions"]) or "none")
                            + ". Trusted: Lean kernel + Mathlib, axioms propext/Classical.choice/Quot.sound, the translator, the correspondence harness, exact-real model of IEEE arithmetic."),
             "technique": s.get("technique") or "Lean 4 machine-checked proof over a formal model; translator-regenerated kernels with bridge theorems; correspondence (differential) run; oracle search for a failing input",
